@@ -117,7 +117,12 @@ MarksDiffering(r, xs) ==
         Has(r, k) /\
         (IF \A i \in DOMAIN xs : At(xs[i], k) = At(xs[1], k) THEN At(r, k) = At(xs[1], k)
          ELSE IF \A i \in DOMAIN xs : IsMap(At(xs[i], k)) THEN MarksDiffering(At(r, k), [i \in DOMAIN xs |-> At(xs[i], k)])
-         ELSE IF \A i \in DOMAIN xs : IsList(At(xs[i], k)) THEN IsList(At(r, k))
+         ELSE IF \A i \in DOMAIN xs : IsList(At(xs[i], k)) THEN
+              /\ IsList(At(r, k))
+              (* differing lists that share no entry at all: the field carries the marker, not an empty list *)
+              /\ ((\A v \in UNION {SeqToSet(Elems(At(xs[i], k))) : i \in DOMAIN xs} :
+                      \E i \in DOMAIN xs : Count(Elems(At(xs[i], k)), v) = 0)
+                    => At(r, k) = L(<<Req>>))
          ELSE At(r, k) = Req)
   ELSE TRUE
 
